@@ -29,6 +29,7 @@ ENTRIES = [  # lean constructor, class, function
     ('m2mRemove', 'Set', 'remove_m2m'),
     ('m2mAdd', 'Set', 'add_m2m'),
     ('bulkDelete', 'Query', 'delete'),
+    ('rawConn', 'Database', 'get_connection'),
 ]
 EXEC_NAMES = ('_exec_sql', '_exec_raw_sql')
 
@@ -93,6 +94,26 @@ def dominated(body, names):
     return walk(body, False) is not False
 
 
+def raw_connection_guard(f):
+    """Database.get_connection hands the raw DB-API connection to user code: whatever is written on it goes straight to the
+    database.  Obligation: the connection is returned only inside a transaction, i.e. the function's first compound statement
+    is `if not cache.in_transaction:` whose body sets `cache.immediate = True`, then prepares the connection (BEGIN), then
+    sets `cache.in_transaction = True`, and nothing returns before it."""
+    for st in f.body:
+        if isinstance(st, ast.Return): return False, 'returns before the guard (line %d)' % st.lineno
+        if isinstance(st, ast.If):
+            if ast.unparse(st.test) != 'not cache.in_transaction':
+                return False, 'first guard is `if %s:` (line %d), not `if not cache.in_transaction:`' % (ast.unparse(st.test), st.lineno)
+            order = []
+            for b in st.body:
+                if is_immediate_true(b): order.append('imm')
+                elif contains_call(b, ('prepare_connection_for_query_execution',)): order.append('prep')
+                elif ast.unparse(b) == 'cache.in_transaction = True': order.append('intx')
+            ok = order == ['imm', 'prep', 'intx']
+            return ok, 'Database.get_connection line %d: `if not cache.in_transaction:` body order %s' % (st.lineno, order)
+    return False, 'no guard found'
+
+
 def analyse(src):
     tree = ast.parse(src)
     info = {}
@@ -101,6 +122,8 @@ def analyse(src):
         f = find_func(tree, cls, name)
         if f is None:
             res[lean] = False; info[lean] = 'function %s.%s not found' % (cls, name); continue
+        if lean == 'rawConn':
+            res[lean], info[lean] = raw_connection_guard(f); continue
         calls = exec_calls(f)
         if not calls:
             res[lean] = False; info[lean] = 'no _exec_sql call'; continue
